@@ -66,7 +66,7 @@ QueryOK(a, glob, res) ==
   /\ \A s \in DOMAIN res : s \in DOMAIN sl[a] /\ (glob \/ sl[a][s].local)
 
 NoPl == [k |-> "-", ck |-> FALSE, mt |-> FALSE]
-Idle == [st |-> "idle", f |-> "", x |-> NoX, fk |-> "", supp |-> FALSE, nf |-> FALSE, nm |-> FALSE, pl |-> NoPl]
+Idle == [st |-> "idle", f |-> "", x |-> NoX, fk |-> "", supp |-> FALSE, nf |-> FALSE, nm |-> FALSE, pl |-> NoPl, pend |-> {}]
 
 SetSt(w, s) == wk' = [wk EXCEPT ![w].st = s]
 
@@ -453,24 +453,50 @@ Unmatched(key) ==
        /\ (~s.inl /\ ~s.local /\ s.wild) => s.checked
   /\ key \notin unm
   /\ unm' = unm \cup {key}
-  /\ UNCHANGED <<sl, wk, ldup, edup, shown, emitted, xflag, result, pipe, chst, phase, nfm, exit>>
+  /\ wk' = [wk EXCEPT !["main"].pend = @ \cup {key}]      \* its report is due
+  /\ UNCHANGED <<sl, ldup, edup, shown, emitted, xflag, result, pipe, chst, phase, nfm, exit>>
 
-\* the unmatchedSuppression finding goes straight to the report
+\* a finding that goes straight to the report after the executor finished: the unmatchedSuppression report of the
+\* entry just selected - at the suppression's own location, naming its id - or the checkers summary
 EmitDirect(x, fk, dup) ==
   /\ phase = "post"
+  /\ IF x.id \in {"unmatchedSuppression", "unmatchedPolyspaceSuppression"}
+     THEN \E k \in wk["main"].pend :
+            /\ LET s == sl["main"][k] IN
+                 /\ x.file = s.file
+                 /\ x.line = (IF s.line = -1 THEN 0 ELSE s.line)
+                 /\ x.msg = "Unmatched suppression: " \o s.id
+            /\ wk' = [wk EXCEPT !["main"].pend = @ \ {k}]
+     ELSE x.id = "checkersReport" /\ UNCHANGED wk
   /\ dup = (~EmitDup /\ fk \in shown)
   /\ shown' = shown \cup {fk}
   /\ emitted' = IF dup THEN emitted ELSE Append(emitted, x)
-  /\ UNCHANGED <<sl, wk, ldup, edup, xflag, result, pipe, chst, phase, unm, nfm, exit>>
+  /\ UNCHANGED <<sl, ldup, edup, xflag, result, pipe, chst, phase, unm, nfm, exit>>
+
+\* an entry that has to be reported (C24): it matched nothing and it applied to analysed code - an inline entry
+\* whose line was reached, a global entry (unless it is a wildcard that was never consulted), a file-local entry
+\* that was consulted. For a never-consulted file-local entry the outcome depends on whether its file was analysed
+\* and is left open here.
+MustReport(s) ==
+  /\ ~s.matched
+  /\ s.id \notin {"checkersReport", "unmatchedSuppression"}
+  /\ \/ s.inl /\ s.checked
+     \/ ~s.inl /\ ~s.local /\ (s.checked \/ ~s.wild)
+     \/ ~s.inl /\ s.local /\ s.checked
+
+\* `--suppress=unmatchedSuppression...' silences (some of) the reports: then nothing is demanded
+Silenced == \E k \in DOMAIN sl["main"] : sl["main"][k].id = "unmatchedSuppression"
 
 UnmatchedDone(err) ==
   /\ phase = "post"
   /\ err = (unm # {})
+  /\ Silenced \/ \A k \in DOMAIN sl["main"] : MustReport(sl["main"][k]) => k \in unm
   /\ result' = IF err /\ result = 0 THEN ExitCode ELSE result
   /\ UNCHANGED <<sl, wk, ldup, edup, shown, emitted, xflag, pipe, chst, phase, unm, nfm, exit>>
 
 Exit(code) ==
   /\ phase = "post"
+  /\ wk["main"].pend = {}                      \* every selected unmatched entry was reported
   /\ code = (IF result # 0 THEN ExitCode ELSE 0)
   /\ exit' = code
   /\ phase' = "done"
